@@ -40,6 +40,15 @@ func TestRaceStress(t *testing.T) {
 	for e := 0; e < epochs && !s.failed(); e++ {
 		s.epoch(e, rounds)
 	}
+	// the ReaderBurst schedules (long lists, nothing else running) in this -race build
+	schedules := envInt("VERIF_RACE_BURST_SCHEDULES", 150)
+	brng := &prng{x: s.seed*0x9e3779b97f4a7c15 ^ 0xb0457}
+	for k := 0; k < schedules && !s.failed(); k++ {
+		c := genBurstCasePRNG(brng)
+		if res := runBurstCase(c); res.Violation != nil {
+			s.failBurst(c, res.Violation)
+		}
+	}
 	st := map[string]interface{}{
 		"seed": s.seed, "epochs": epochs, "rounds_per_epoch": rounds, "goroutines": 8,
 		"submit_calls": s.nSubmit, "txs_submitted": s.nTx, "txs_accepted": s.nAccepted,
@@ -48,6 +57,8 @@ func TestRaceStress(t *testing.T) {
 		"midflight_snapshots_checked": s.nMid, "quiescent_checks": s.nQuiet,
 		"max_pooled": s.maxPooled, "stops_under_load": s.nStops,
 		"known_findings_tolerated": s.tolerated,
+		"reader_bursts":            atomic.LoadInt64(&nBursts), "concurrent_reads_in_bursts": atomic.LoadInt64(&nConcurrentReads),
+		"reader_burst_schedules": atomic.LoadInt64(&nBurstCases),
 	}
 	b, _ := json.Marshal(st)
 	fmt.Printf("RACE-STATS %s\n", b)
@@ -227,6 +238,45 @@ func (s *stress) epoch(e, rounds int) {
 		// quiescence: every goroutine has returned; wait for all filed reset/promotion requests
 		w.pool.VerifQuiesce()
 		w.quietCheck(r)
+		if !s.failed() {
+			w.readerBurstPhase(r)
+		}
+	}
+}
+
+// readerBurstPhase: quietCheck's snapshot has just warmed every Flatten cache; make them
+// cold again (gapped submissions to every account, now and then a re-pricing, neither
+// followed by anything that flattens the lists) and let 8 readers call Content() /
+// Pending() / Stats() at the same moment - concurrently with each other, with no writer.
+// Each view is judged by itself here (per account strictly ascending, no duplicate, no nil):
+// the 5 ms eviction ticker of these epochs may remove queued transactions between two reads
+// (also in the epochs with a long Lifetime: an account that never had a pending transaction
+// has no heartbeat and counts as idle since the epoch). The exact comparison with the
+// lists' own maps is done by the ReaderBurst schedules that follow the epochs.
+func (w *epochWorld) readerBurstPhase(round int) {
+	rng := &prng{x: w.s.seed ^ uint64(w.e)<<32 ^ uint64(round)<<8 ^ 0xb0457}
+	snap := w.pool.VerifSnapshot(addrList)
+	var txs []*types.Transaction
+	for a := 0; a < nAcct; a++ {
+		nonce := snap.PoolNonce[addrs[a]] + 1
+		if q := snap.Queued[addrs[a]]; len(q) > 0 {
+			nonce = q[len(q)-1].Nonce() + 1
+		}
+		for k := 0; k <= rng.intn(2); k++ {
+			tx := makeTx(a, nonce+uint64(k), toPlain, w.nextSalt(), 21000, 12, 3, false)
+			w.register(tx, a, toPlain, false)
+			txs = append(txs, tx)
+		}
+	}
+	w.pool.AddRemotesSync(txs)
+	if rng.intn(3) == 0 {
+		p := pick64(priceChoices, 1+rng.intn(5))
+		w.pool.SetGasPrice(big.NewInt(p))
+		atomic.StoreInt64(&w.floor, p)
+	}
+	views := readerBurst(w.pool, 8, rng.intn(4))
+	if class, msg := judgeBurst(w.pool, views, false); class != "" {
+		w.s.fail(w, round, class, "reader burst after the round: "+msg, nil)
 	}
 }
 
@@ -614,6 +664,28 @@ func (w *epochWorld) judge(round int, phase string, viols []*violation, snap *co
 		s.fail(w, round, x.class, phase+": "+x.msg, snap)
 		return
 	}
+}
+
+// failBurst saves the failing ReaderBurst schedule in the replay format of the props, so that
+// `./run replay C20 <path>` re-runs exactly that op list + reader count.
+func (s *stress) failBurst(c BurstCase, v *kit.Violation) {
+	if !atomic.CompareAndSwapInt32(&s.failFlag, 0, 1) {
+		return
+	}
+	raw, _ := json.Marshal(c)
+	rec := kit.ReplayFile{Property: "C20", Prop: "ReaderBurst", Class: v.Class, Msg: v.Msg, Seed: s.seed, Case: raw}
+	dir := os.Getenv("VERIF_OUT")
+	if dir == "" {
+		dir = os.TempDir()
+	}
+	os.MkdirAll(dir, 0o755)
+	path := filepath.Join(dir, fmt.Sprintf("stress-readerburst-seed%d.json", s.seed))
+	b, _ := json.MarshalIndent(rec, "", " ")
+	os.WriteFile(path, b, 0o644)
+	s.mu.Lock()
+	s.failMsg = v.Class + ": " + v.Msg
+	s.mu.Unlock()
+	fmt.Printf("RACE-VIOLATION replay=%s\n", path)
 }
 
 func (s *stress) fail(w *epochWorld, round int, class, msg string, snap *core.VerifPoolSnapshot) {
